@@ -412,13 +412,21 @@ def run(plan):
                     # independence: step the clone, the original must not move (and vice versa)
                     if op.get("check_independence", True) and old["num_iters"] >= 0:
                         bump(probes, "clone_independence_checked")
-                        probe_clone = new.clone()
-                        before = _state(orig)
-                        probe_clone.reconstruct(num_iters=1, loss_type=cfg["loss"])
-                        d1 = _cmp_exact(before, _state(orig))
+                        # (a) iterate the ORIGINAL (it is dropped afterwards): the clone must not
+                        #     move; (b) iterate a clone of the clone: the clone must not move either
+                        before_new = _state(new)
+                        orig.reconstruct(num_iters=1, loss_type=cfg["loss"])
+                        d1 = _cmp_exact(before_new, _state(new))
                         if d1:
-                            viol("clone_shares_state", f"{tag}: iterating a clone changed the "
-                                 f"original: {d1}", "clone_shares_state:" + d1[0].split(" ")[0])
+                            viol("clone_shares_state", f"{tag}: iterating the original changed its "
+                                 f"clone: {d1}", "clone_shares_state:orig->clone:" + d1[0].split(" ")[0])
+                        probe_clone = new.clone()
+                        probe_clone.reconstruct(num_iters=1, loss_type=cfg["loss"])
+                        d2 = _cmp_exact(before_new, _state(new))
+                        if d2 and not d1:
+                            viol("clone_shares_state", f"{tag}: iterating a clone changed the object "
+                                 f"it was cloned from: {d2}",
+                                 "clone_shares_state:clone->source:" + d2[0].split(" ")[0])
                         del probe_clone
                     R = new
                     after_clone = True
